@@ -118,6 +118,14 @@ class HpcSubmitter:
 
         """
         starting_batch_index = self._batch_index
+        # Refuse to act at all if a previous submitter crashed: the job status may not reflect the
+        # batches it submitted, so collecting results and canceling jobs from it would be wrong.
+        lock_file = Path(self._output) / self.LOCK_FILENAME
+        if lock_file.exists():
+            raise Exception(
+                f"{lock_file} exists. A previous submitter crashed in an unknown state."
+            )
+
         # TODO: consider whether we need to save the real job names
         hpc_submitters = [
             AsyncHpcSubmitter.create_from_id(self._hpc_mgr, self._status_collector, x)
@@ -135,11 +143,6 @@ class HpcSubmitter:
         queue.process_queue()
         completed_job_names, canceled_jobs = self._update_completed_jobs()
 
-        lock_file = Path(self._output) / self.LOCK_FILENAME
-        if lock_file.exists():
-            raise Exception(
-                f"{lock_file} exists. A previous submitter crashed in an unknown state."
-            )
         lock_file.touch()
 
         # Start submitting jobs. If any unexpected exception prevents us from updating the
